@@ -72,19 +72,54 @@ def r14_1(ctx):
         raise AnalysisError(f"expected exactly one `if` testing the error estimate `{err}` in the adaptive arm, found "
                             f"{len(accept)}", where=astq.loc(fi, ad))
     test = accept[0].test
+    # the accept rule, decided by running one pass of the stepping loop on concrete numbers: error estimate in {<, =, >} 1,
+    # controller proposal in {<, =, >} dt_min (a proposal below dt_min is clamped to it), and every extra piece of loop
+    # state the prologue introduces (flags, counters) at both of its initial / opposite values -- the decision must be
+    # `err <= 1 or h <= dt_min` on today's numbers alone
+    _fi, prologue, _f, w_node, _tail, _epi = ik.loop_structure(model)
+    F = Fraction
+    extras = ik.extra_loop_state(model)
+    flag_values = [dict()]
+    for name in sorted(extras):
+        flag_values = [dict(d, **{name: v}) for d in flag_values for v in (False, True, F(0), F(7))][:16]
     table, bad = {}, []
-    for e_rel, e_val in (("<", 0.5), ("=", 1), (">", 2)):
-        for h_rel, h_val in (("<", 1), ("=", 2), (">", 3)):
-            env = {err: e_val, size: h_val, "self.dt_min": 2}
-            got = bool(_concrete(test, env))
-            want = (e_val <= 1) or (h_val <= 2)
-            table[f"err{e_rel}1,h{h_rel}dt_min"] = got
-            if got != want:
-                bad.append(f"err{e_rel}1,h{h_rel}dt_min: accepts={got}, required={want}")
+    dt_min = F(1, 100)
+    for e_rel, e_val in (("<", F(1, 2)), ("=", F(1)), (">", F(2))):
+        for h_rel, prop in (("<", dt_min / 2), ("=", dt_min), (">", 3 * dt_min)):
+            for flags in flag_values:
+                class CH(ik.LoopHooks):
+                    def on_call(self, interp, callee, args, kwargs, node, fi2, e_val=e_val, prop=prop):
+                        nm = getattr(getattr(callee, "fi", None), "name", None)
+                        if nm == "compute_error":
+                            return e_val
+                        if nm == "update_step_size":
+                            return (prop, F(1))
+                        return ik.LoopHooks.on_call(self, interp, callee, args, kwargs, node, fi2)
+                steps = []
+                self_obj = ik.make_self(model, True, steps)
+                self_obj.attrs["dt"], self_obj.attrs["dt_min"] = F(1, 10), dt_min
+
+                def getitem(it, obj, idx, node, fi2):
+                    return F(0) if idx == 0 else F(10)
+                from ..interp import Obj
+                env = ik.head_env(self_obj, Obj("ts", getitem_hook=getitem), F(5))
+                env.update({"curr_t": F(1), "prev_t": F(9, 10), "step_size": F(1, 10), "prev_error_ratio": None})
+                env.update(flags)
+                it = Interp(model, CH({}))
+                try:
+                    it.exec_block(w_node.body, env, fi)
+                except Exception as ex:
+                    raise AnalysisError(f"R14.1: the accept scenario could not be evaluated: {ex}", where=astq.loc(fi, accept[0]))
+                got = env["curr_t"] != F(1)
+                want = (e_val <= 1) or (prop <= dt_min)
+                key = f"err{e_rel}1,h{h_rel}dt_min" + ("," + ",".join(f"{k}={v}" for k, v in sorted(flags.items())) if flags else "")
+                table[key] = got
+                if got != want:
+                    bad.append(f"{key}: accepts={got}, required={want}")
     rep.check(not bad, "R14.1", astq.loc(fi, accept[0]), f"{fi.key}::R14.1::accept-predicate",
-              f"accept predicate `{ast.unparse(test)}` differs from `err <= 1 or h <= dt_min` on {bad}: a step whose "
+              f"accept predicate `{ast.unparse(test)}` differs from `err <= 1 or h <= dt_min` on {bad[:6]}: a step whose "
               f"estimated error exceeds 1 would be accepted above dt_min, or a step at dt_min could never be accepted",
-              "truth table equals err <= 1 or h <= dt_min", facts={"table": table})
+              "truth table equals err <= 1 or h <= dt_min", facts={"table": {k: v for k, v in list(table.items())[:12]}})
     # advance <=> accept, on the enumerated paths
     acc_text = ast.unparse(test)
     for p in _paths(ctx, True):
